@@ -65,6 +65,7 @@ struct WorldSO : World, Net {
   // zone
   struct Zone { std::map<std::string, std::vector<std::pair<int, std::string>>> mx; std::map<std::string, std::vector<uint32_t>> a; std::map<std::string, std::string> fail; } zone;
 
+  std::map<std::string, int> query_count;
   // ---- resolver: wire-format answers
   static void put_name(std::string &p, const std::string &n) { size_t i = 0; while (i < n.size()) { size_t d = n.find('.', i); if (d == std::string::npos) d = n.size(); if (d > i) { p.push_back((char)(d - i)); p.append(n, i, d - i); } i = d + 1; } p.push_back('\0'); }
   int on_query(const std::string &name0, int type, std::string &pkt, int &herr) override {
@@ -80,6 +81,12 @@ struct WorldSO : World, Net {
       else if (kind == "cut") { g += q; std::string rr2; put_name(rr2, name); rr2.push_back((char)(type >> 8)); rr2.push_back((char)type); rr2 += std::string("\0\1\0\0\0\0\0\x40", 8); rr2 += "xx"; g += rr2.substr(0, rr2.size() / 2 + (size_t)(k->clock % 7)); }
       else if (kind == "counts") { g[4] = (char)0xff; g[5] = (char)0xff; g[6] = (char)0xff; g[7] = (char)0xff; g += q; }
       else if (kind == "big") { g += q; for (int z = 0; z < 200; z++) { put_name(g, name); g.push_back((char)(type >> 8)); g.push_back((char)type); g += std::string("\0\1\0\0\0\0\0\4", 8); g += std::string("\x0a\x01\x01", 3); g.push_back((char)z); } g[6] = 0; g[7] = (char)200; }
+      else if (kind == "grow" || kind == "shrink") {   // an oversized answer whose size changes between the first query and the retry that follows it at once
+        int nth = ++query_count[name + "/" + std::to_string(type)]; int cnt = (kind == "grow") == (nth == 1) ? 40 : 150;
+        g += q; for (int z = 0; z < cnt; z++) { g += std::string("\xc0\x0c", 2); g.push_back((char)(type >> 8)); g.push_back((char)type); g += std::string("\0\1\0\0\0\0", 6);
+          if (type == T_MX) { std::string rd; rd.push_back(0); rd.push_back((char)(z + 1)); put_name(rd, "mx" + std::to_string(z) + ".r.example"); g.push_back((char)(rd.size() >> 8)); g.push_back((char)rd.size()); g += rd; }
+          else { g += std::string("\0\4", 2); g += std::string("\x0a\x01\x01", 3); g.push_back((char)z); } }
+        g[6] = (char)(cnt >> 8); g[7] = (char)cnt; }
       else if (kind == "rdlen") { g += q; put_name(g, name); g.push_back((char)(type >> 8)); g.push_back((char)type); g += std::string("\0\1\0\0\0\0\xff\xff", 8); g += "abcd"; g[7] = 1; }
       else if (kind == "trunc") { g[2] = (char)0x83; g += q; }
       else if (kind == "edge") {   // a packet that ends inside the fixed part of its last record, right at the end of the 512-byte answer buffer
